@@ -101,8 +101,10 @@ def specSync (o : SyncOpt) (before after : List Snap) (view : List VEnt) : SpecV
       let r := entryMatches o evs before after view v a
       if !r.ok then return r
   -- hard-link groups: same inode iff same group
+  -- (symbolic links are left out: the protocol has no way to announce a hard link between symlinks — the link-name field
+  -- of a symlink entry is its target — so nothing is demanded of them)
   let gi : List (Path × Nat) := view.filterMap fun v =>
-    if v.st.isDir then none else (findSnap after v.st.path).map fun a => (groupOf v, a.ino)
+    if v.st.isDir || v.st.isSymlink then none else (findSnap after v.st.path).map fun a => (groupOf v, a.ino)
   for x in gi do
     for y in gi do
       if (x.1 == y.1) != (x.2 == y.2) then return ⟨false, "hard-link groups differ"⟩
